@@ -97,7 +97,10 @@ def run(chk):
         dchars = list(range(33, 127)) + list(range(0x100, 0x120)) + list(range(0x2460, 0x2466))
         tcases += [trans.case_line("C", 0, dchars, len(dchars)), trans.case_line("D", 0, [0x8000 | v for v in range(64)], 64),
                    trans.case_line("T", 0, inputs[0], 6 * len(inputs[0]) + 10), trans.case_line("B", 0, [r.range(33, 126) for _ in range(6)], 40)]
-        lines = ["K %s | %s" % (other, "always ab 1")]      # another list: must not be affected
+        # a longer list that begins with the name of the base is loaded (and used) first: additions to the base belong to the
+        # base alone, whatever else is in the cache
+        lines = ["Y %s,%s ;; %s" % (base, other, tcases[0])]
+        lines += ["K %s | %s" % (other, "always ab 1")]      # another list: must not be affected
         accepted = []
         exp_ret = []
         for text, ok in rules:
@@ -134,7 +137,7 @@ def run(chk):
             o = [o for o in outs if isinstance(o, tuple)][0]
             chk.violation("crash", "adding rules / translating died: %s" % o[1][:200], dict(base=base.read_text(), rules=[t for t, _ in rules]))
             continue
-        rets = [int(o.split()[1]) for o in outs[1:nadd]]
+        rets = [int(o.split()[1]) for o in outs[2:nadd]]
         accepted = [t for (t, ok), ret in zip(rules, rets) if ret == 1]
         chk.count(key, nontrivial=len(accepted) >= 2, n=len(lines))
         chk.tally("rules_offered", len(rules))
